@@ -56,11 +56,15 @@ def gen_cfg(p):
             % (p["len"], p.get("need", 1)))
 
 
-def trace_cfg(p):
-    q = dict(p)
+ALL_NAMES = dict(sys=["time_zone", "sql_select_limit", "group_concat_max_len", "sql_mode"], ext=["lock_wait_timeout"],
+                 user=["@u", "@w"], sqlmode=["sql_mode"], cs=["d", "a", "b", "c"], vals=["a", "b"])
+
+
+def trace_cfg(p=None):
+    """one validating configuration for every recorded trace: the union of all names / values the generators use"""
+    q = dict(ALL_NAMES)
     q.update(clients=3, nconns=4, usernull=True, fails=["reject", "sqlmode"], tx=True, sets=0, stmts=0, maxfails=0)
-    return ("SPECIFICATION TraceSpec\n" + constants(q) +
-            "POSTCONDITION TraceAccepted\nCHECK_DEADLOCK FALSE\n")
+    return ("SPECIFICATION TraceSpec\n" + constants(q) + "POSTCONDITION TraceAccepted\nCHECK_DEADLOCK FALSE\n")
 
 
 def family_key(p):
